@@ -276,6 +276,8 @@ def default_tracker_update(c):
     log = []
     c.interp.contracts["pycaption.scc.state_machines:_PositioningTracker.update_positioning"] = \
         lambda interp, fn, a, kw: log.append((args_by_name(fn, a, kw)["self"], args_by_name(fn, a, kw)["positioning"]))
+    from pyvc.verify import require_callees
+    require_callees(c.interp.contracts)
     c.call(DT.update_positioning, t, arg, compare=False)
     c.ensure("transition_is_the_plain_trackers_once_with_the_same_argument", len(log) == 1 and log[0][0] is t and log[0][1] is arg)
     if given:
